@@ -6,7 +6,7 @@ From VF Require Import Lifecycle.Pool Lifecycle.PoolProofs Lifecycle.Fin Lifecyc
   Lifecycle.HttpLife Lifecycle.HttpLifeProofs Lifecycle.LifeSeq.
 Import ListNotations.
 
-Definition all_sop (f : sop -> bool) : bool := f SStart && f SStop && f SRequest && f STick && f SStopBusy.
+Definition all_sop (f : sop -> bool) : bool := f SStart && f SStop && f SRequest && f STick && f SStopBusy && f SStartFail.
 Lemma all_sop_ok f : all_sop f = true -> forall x, f x = true.
 Proof. unfold all_sop. intros H x. repeat (apply andb_prop in H; destruct H as [H ?]). destruct x; assumption. Qed.
 
@@ -111,7 +111,7 @@ Qed.
 
 Theorem tftp_idempotent h : tseq cur init h = spec_run false h.
 Proof.
-  apply (seq_follows_spec glob cpc op lock (cstep cur) (mstep cur) is_idle Idle Start Stop tview (tbusy cur) talive tserving tsinv);
+  apply (seq_follows_spec glob cpc op lock (cstep cur) (mstep cur) is_idle Idle Start Stop StartF tview (tbusy cur) talive tserving tsinv);
     [|reflexivity].
   exact tseq_one.
 Qed.
@@ -222,7 +222,7 @@ Qed.
 
 Theorem http_idempotent h : hseq true hinit h = spec_run false h.
 Proof.
-  apply (seq_follows_spec hglob hpc hop hlock (hcstep true) hmstep his_idle HIdle HStart HStop hview (fun g => g) (fun g => hmt_live (hmt g)) hserving hsinv);
+  apply (seq_follows_spec hglob hpc hop hlock (hcstep true) hmstep his_idle HIdle HStart HStop HStartF hview (fun g => g) (fun g => hmt_live (hmt g)) hserving hsinv);
     [|reflexivity].
   exact hseq_one.
 Qed.
